@@ -5,6 +5,7 @@ because the closure runs on behalf of its creator or of whoever it is handed to)
 (`or_else(map_no_row_to_none)`), and poll-of-future edges (already resolved by the driver to the coroutine body).
 Unresolved trait-object / generic calls fan out to every workspace impl method of that name.
 """
+import re
 from .facts import callee_name, op_place
 
 
@@ -18,11 +19,48 @@ class CallGraph:
         for im in P.impls:
             for m, path in im["methods"].items():
                 by_method.setdefault(m, []).append(path)
+        # `{}` / `{:?}` of a workspace type runs that type's Display / Debug impl — and, for a container or a derived impl, those of
+        # the workspace types inside it.  format_args! names the trait and the value's type at `fmt::rt::Argument::new_<trait>::<T>`.
+        fmt_impl = {}
+        for im in P.impls:
+            if (im.get("trait") or "").startswith("std::fmt::") and "fmt" in (im.get("methods") or {}):
+                fmt_impl[(im["trait"].rsplit("::", 1)[-1], re.sub(r"<.*$", "", im["self_ty"]))] = im["methods"]["fmt"]
+        # what a type contains (field types, transitively): a derived Debug hands its fields to the formatter as `&dyn Debug`
+        inside = {}
+        for path, adt in (P.adts or {}).items():
+            ws = set()
+            for v in adt.get("variants") or []:
+                for f in v.get("fields") or []:
+                    ws |= set(re.findall(r"[A-Za-z_][A-Za-z_0-9]*(?:::[A-Za-z_][A-Za-z_0-9]*)+", f.get("ty") or ""))
+            inside[path] = ws
+
+        def closure(ws):
+            seen, todo = set(), list(ws)
+            while todo:
+                w = todo.pop()
+                if w in seen:
+                    continue
+                seen.add(w)
+                todo.extend(inside.get(w, ()))
+            return seen
+        FMT_TRAIT = {"debug": "Debug", "display": "Display", "lower_hex": "LowerHex", "upper_hex": "UpperHex", "octal": "Octal", "binary": "Binary",
+                     "lower_exp": "LowerExp", "upper_exp": "UpperExp", "pointer": "Pointer"}
         for b in P.bodies.values():
             outs = self.out.setdefault(b.id, set())
             for bb, t in b.calls():
                 n = callee_name(t)
                 c = t["callee"]
+                if n is not None and "fmt::rt::Argument" in n and "::new_" in n:
+                    tr = FMT_TRAIT.get(n.rsplit("::new_", 1)[1].split("::")[0].split("<")[0])
+                    ty = (c.get("gargs") or ["?"])[-1]
+                    if tr:
+                        named = set(re.findall(r"[A-Za-z_][A-Za-z_0-9]*(?:::[A-Za-z_][A-Za-z_0-9]*)+", ty))
+                        for w in (closure(named) if tr == "Debug" else named):
+                            for trait in (tr,):
+                                f = fmt_impl.get((trait, w))
+                                if f is not None and f != b.id:
+                                    outs.add(f)
+                                    self.sites.setdefault(f, []).append((b, bb, t))
                 if n is not None:
                     outs.add(n)
                     self.sites.setdefault(n, []).append((b, bb, t))
